@@ -12,6 +12,8 @@ use gimli::{
 mod wiring;
 #[path = "c17_corpus.rs"]
 mod corpus;
+#[path = "c17_glue.rs"]
+mod glue;
 
 pub type R<'a> = EndianSlice<'a, RunTimeEndian>;
 
@@ -1118,6 +1120,7 @@ pub fn run(t: &[&str]) -> String {
             }
             "ok".into()
         }
+        "c17.unitglue" => glue::run(t),
         "c17.wiring" => wiring::run(t),
         "c17.corpus" => corpus::run(t),
         _ => format!("unknown-stream {}", t[0]),
